@@ -188,11 +188,12 @@ theorem combine_elems {nn : Bool} {p' : Path} {st : St} {ri : Out × St} {rs : O
   · intro os
     cases hs1 : rs.1 <;> cases hs2 : restS.1 <;> simp_all [view]
 
-theorem relV_leaf_elem (o : Oracle) (b : Bool) (v : V) (p : Path) (st : St) :
+theorem relV_leaf_elem (o : Oracle) (b : Bool) (v : V) (rest : List V) (p : Path) (st : St) :
     RelV b p st
-      (if !false && b && v.isNull then (Out.null, st.addErr p illTypedScalarElem)
+      (if !false && b && v.isNull then (Out.null, if rest.any V.isNull then st else st.addErr p elementIsNull)
         else Impl.completeValue o (.leaf b) v p st)
-      (if !false && b && v.isNull then ((none : Option Out), eff [⟨p, illTypedScalarElem⟩])
+      (if !false && b && v.isNull then
+          ((none : Option Out), if rest.any V.isNull then {} else eff [⟨p, elementIsNull⟩])
         else Spec.completeValue o (.leaf b) v p) := by
   have hu : ∀ m, Under p (eff [⟨p, m⟩]) := by
     intro m x hx; simp at hx; subst hx; exact List.prefix_refl _
@@ -201,7 +202,13 @@ theorem relV_leaf_elem (o : Oracle) (b : Bool) (v : V) (p : Path) (st : St) :
     cases b with
     | true =>
       simp only [Bool.not_false, Bool.and_self, V.isNull, ↓reduceIte]
-      exact ⟨by simp [St.addErr_eq], by simp [view], by simp, by simp, hu _⟩
+      cases rest.any V.isNull with
+      | true =>
+        simp only [↓reduceIte]
+        exact ⟨by simp, by simp [view], by simp, by simp, by intro x hx; simp at hx⟩
+      | false =>
+        simp only [Bool.false_eq_true, ↓reduceIte]
+        exact ⟨by simp [St.addErr_eq], by simp [view], by simp, by simp, hu _⟩
     | false =>
       simp only [Bool.not_false, Bool.and_false, Bool.false_and, Bool.false_eq_true, ↓reduceIte,
         Impl.completeValue, Spec.completeValue, Impl.nilAt, Spec.nilAt]
@@ -232,7 +239,7 @@ theorem elems_scalar (o : Oracle) (b : Bool) (vs : List V) (p : Path) (i : Nat) 
     simp only [Impl.completeElems, Spec.completeElems]
     exact ⟨by simp, by simp, by simp, by intro x hx; simp at hx⟩
   | cons v rest ih =>
-    have h1 := relV_leaf_elem o b v p st
+    have h1 := relV_leaf_elem o b v rest p st
     simp only [Impl.completeElems, Spec.completeElems, Shape.nn, Bool.false_eq_true, ↓reduceIte]
     obtain ⟨i1, i2, i3, i4⟩ := ih (i + 1) _
     have hc := combine_elems h1 i1 i2 i3
